@@ -409,6 +409,15 @@ Local Open Scope string_scope.
    must follow the range test of C), the
    lazily allocated EMPTY ZoneGridConnectivity / ZoneBC containers of write mode (id 0: written to the file only when a
    child is added), the zone-name hash maps (an index over base->zone built on first use).  (function, path prefix) *)
+(* THE CURSOR.  The stores to the goto globals (posit, posit_file, posit_base, posit_zone, posit_depth, posit_stack[..]) are
+   not stores through a pointer into the in-memory tree: the translator emits no AMirror for them and they are in no log of
+   the machine.  For the navigation entry points (cg_goto, cg_gorel, cg_gopath, cg_golist and their _f08 / Fortran forms) that
+   is the specification: `posit = 0` at the head of cgi_set_posit and in every failing branch of cgi_update_posit is the
+   fail-safe of property C11 -- "A failed navigation reports an error and never leaves the position silently on a different
+   node" -- so ending a failed go* call with NO position is admissible and the cursor is not part of C12's "session view and
+   file content".  It is benign for those entry points ONLY: no other function of the table assigns the cursor on a failing
+   path (cg_close resets it together with the file it frees), and the dynamic oracle compares cg_where around every failing
+   call of every other entry point (UNSET or CHANGED is a violation there; a position that MOVED is one for the go* calls too). *)
 Definition benign_stores : list (string * string) :=
   [("cgi_get_zconn", "zone->active_zconn"); ("cgi_get_zconn", "zone->zconn");
    ("cgi_get_zboco", "zone->zboco");
